@@ -560,7 +560,8 @@ def run(ctx):
     rng = ctx.rng
     batch = Batch(ctx)
     if ctx.replay:
-        run_case(ctx, batch, json.load(open(ctx.replay))["case"]); batch.flush(); return
+        run_case(ctx, batch, json.load(open(ctx.replay))["case"]); batch.flush()
+        shutil.rmtree(ctx.workdir(), ignore_errors=True); return
     for _, c in ctx.corpus():
         run_case(ctx, batch, c)
     do_conflict_table(ctx)
